@@ -135,6 +135,94 @@ def coverage_guided(ctx: Ctx, procs: int, runs: int) -> dict:
         shutil.rmtree(d, ignore_errors=True)
 
 
+def share_equal(j, pool=None):
+    """the same JSON value, with equal containers represented by ONE Python object (a payload built in Python rather
+    than parsed from text: `r = {...}; {"range": r, "selectionRange": r}`)"""
+    pool = {} if pool is None else pool
+    if isinstance(j, dict):
+        out = {k: share_equal(v, pool) for k, v in j.items()}
+    elif isinstance(j, list):
+        out = [share_equal(v, pool) for v in j]
+    else:
+        return j
+    if not out:
+        return out
+    key = json.dumps(out, sort_keys=True, default=repr)
+    return pool.setdefault(key, out)
+
+
+def as_mappings(tv):
+    """erase(tv) with every typed object (structure, literal, map) given as a read-only mapping instead of a dict;
+    payload positions (LSPAny...) keep plain containers, since they are handed through"""
+    import types as _types
+    from ..tvgen import A, L, Mp, S, T, U
+    if isinstance(tv, S):
+        return _types.MappingProxyType({k: as_mappings(v) for k, v in tv.props.items()})
+    if isinstance(tv, Mp):
+        return _types.MappingProxyType({k: as_mappings(v) for k, v in tv.items.items()})
+    if isinstance(tv, (L, T)):
+        return [as_mappings(v) for v in tv.items]
+    if isinstance(tv, U):
+        return as_mappings(tv.child)
+    return erase(tv)
+
+
+def with_shared_payloads(tv):
+    """erase(tv) where every container payload (LSPAny / LSPObject / LSPArray position) holds the same sub-object twice"""
+    from ..tvgen import A, L, Mp, S, T, U
+    if isinstance(tv, S):
+        return {k: with_shared_payloads(v) for k, v in tv.props.items()}
+    if isinstance(tv, Mp):
+        return {k: with_shared_payloads(v) for k, v in tv.items.items()}
+    if isinstance(tv, (L, T)):
+        return [with_shared_payloads(v) for v in tv.items]
+    if isinstance(tv, U):
+        return with_shared_payloads(tv.child)
+    if isinstance(tv, A):
+        v = erase(tv)
+        if isinstance(v, dict) and v:
+            return {"vfOnce": v, "vfAgain": v}
+        if isinstance(v, list) and v:
+            return [v, v]
+        return v
+    return erase(tv)
+
+
+def representation_variants(sub, root: tuple, tv: TV) -> List[Tuple[str, str, str, str]]:
+    """the Python representation of the JSON input is not part of the input: shared sub-objects, mappings that are not
+    dicts - the outcome is that of the plain dict/list tree"""
+    T = sub.root_type(root)
+    rname = valuecheck.root_name(root)
+
+    def run(j):
+        try:
+            obj = sub.conv.structure(j, T)
+            return ["ok", json.dumps(json.loads(json.dumps(sub.conv.unstructure(obj, T))), sort_keys=True), obj]
+        except Exception as e:
+            return ["raised", exc_sig(e), None]
+
+    base = run(erase(tv))
+    out = []
+    shared = with_shared_payloads(tv)
+    unshared = json.loads(json.dumps(shared))
+    for label, j in (("shared-subobjects", share_equal(erase(tv))), ("mappings", as_mappings(tv)), ("payload-held-twice", shared)):
+        if label == "payload-held-twice":
+            if shared == erase(tv):
+                continue
+            base = run(unshared)
+        got = run(j)
+        if got[:2] != base[:2] and base[0] == "ok":
+            out.append((f"representation:{label}", f"root:{rname}", first_union_ctx(tv), f"plain containers give {str(base[:2])[:120]}, {label} give {str(got[:2])[:160]}"))
+        elif base[0] == "ok" and got[0] == "ok":
+            try:
+                same = got[2] == base[2]
+            except Exception:
+                same = True
+            if not same:
+                out.append((f"representation-object:{label}", f"root:{rname}", first_union_ctx(tv), f"structured object differs from the one built from plain containers: {str(got[2])[:160]}"))
+    return out
+
+
 def _pinned_work(args) -> dict:
     """k routed cases per (union occurrence, alternative, use site): the free generator reaches a given alternative of a
     deep union with a few percent probability per case; pinning makes every alternative certain."""
@@ -153,7 +241,7 @@ def _pinned_work(args) -> dict:
             res["evaluations"] += 1
             res["pairs"].add(f"{occ}#{idx}")
             res["hashes"].add(tvgen.canon_hash([rname, erase(tv)]))
-            for f in body(sub, root, tv):
+            for f in body(sub, root, tv) + representation_variants(sub, root, tv):
                 lctx.finding((f[0], f[1], f[2]), f[3], {"root": list(root), "json": erase(tv), "tv": tvgen.to_json(tv), "extra": None})
 
         mini(strat, k, (seed, "C01-pinned", occ, idx, rname), one)
